@@ -19,6 +19,7 @@ import (
 	"fmt"
 	"os"
 	"path/filepath"
+	"runtime/debug"
 	"time"
 
 	NoKV "github.com/feichai0017/NoKV"
@@ -133,6 +134,7 @@ func (e *engine) Start(op string, cyc Cycle) Event {
 		case op == "rel" && e.kind == "db":
 			err := eng.Close(e.db)
 			e.db = nil
+			debug.FreeOSMemory() // every Open allocates a 128 MiB memtable arena: hand it back
 			if err != nil {
 				msg = err.Error()
 				return
